@@ -120,6 +120,8 @@ func (e *Env) parseType(s string) SType {
 		switch s[2:] {
 		case "int64":
 			return SType{K: KSlice, Elem: types.Typ[types.Int64]}
+		case "byte":
+			return SType{K: KSlice, Elem: types.Typ[types.Uint8]}
 		}
 		e.fail("unknown slice type %s", s)
 	}
@@ -515,6 +517,72 @@ func (e *Env) call(x *ECall) SVal {
 			e.fail("base of non-slice")
 		}
 		return iv(v.T)
+	case "same", "filled":
+		// same(a, i, b, j, n):  a[i+t] == b[j+t] for 0 <= t < n      filled(a, i, n, c):  a[i+t] == c for 0 <= t < n
+		// a and b are slices of scalars; either may be written old(s): its cells are then read in the old state.
+		// The quantified variable is the cell *address* in a's array, so that the trigger is a plain (select A addr):
+		// a fact about a segment fires on every read of that array, and a goal about a segment skolemises to one read.
+		if x.Fn == "same" {
+			need(5)
+		} else {
+			need(4)
+		}
+		sliceIn := func(a Expr) (SVal, *State) {
+			st := e.cur
+			if o, ok := a.(*EOld); ok {
+				if e.old == nil {
+					e.fail("old() not available here")
+				}
+				// as for old(...): inside, parameter names denote their entry values
+				n := *e
+				n.cur = e.old
+				if len(e.entry) > 0 {
+					n.vars = map[string]SVal{}
+					for k, v := range e.vars {
+						n.vars[k] = v
+					}
+					for k, v := range e.entry {
+						n.vars[k] = v
+					}
+				}
+				v := n.eval(o.X)
+				if v.Ty.K != KSlice {
+					e.fail("%s needs slices", x.Fn)
+				}
+				return v, e.old
+			}
+			v := e.eval(a)
+			if v.Ty.K != KSlice {
+				e.fail("%s needs slices", x.Fn)
+			}
+			return v, st
+		}
+		av, ast := sliceIn(args[0])
+		es, sc := scalarSort(av.Ty.Elem)
+		if !sc || e.g.L.sizeOf(av.Ty.Elem) != 1 {
+			e.fail("%s: slices of one-cell scalars only", x.Fn)
+		}
+		key := cellKey(av.Ty.Elem)
+		i := e.integer(args[1])
+		e.g.nfresh++
+		q := Term{fmt.Sprintf("sj_%d", e.g.nfresh), SInt}
+		lo := Add(av.T, i)
+		aarr := e.g.arr(ast, key, es)
+		var n, rhs Term
+		if x.Fn == "same" {
+			bv2, bst := sliceIn(args[2])
+			if cellKey(bv2.Ty.Elem) != key {
+				e.fail("same: element types differ")
+			}
+			j := e.integer(args[3])
+			n = e.integer(args[4])
+			rhs = Select(e.g.arr(bst, key, es), Add(bv2.T, Add(j, Sub(q, lo))), es)
+		} else {
+			n = e.integer(args[2])
+			rhs = e.eval(args[3]).T
+		}
+		body := Implies(And(Le(lo, q), Lt(q, Add(lo, n))), Eq(Select(aarr, q, es), rhs))
+		return bv(Term{fmt.Sprintf("(forall ((%s Int)) (! %s :pattern (%s)))", q.S, body.S, Select(aarr, q, es).S), SBool})
 	case "extends":
 		// extends(r, b): r is what append-like code returns for b - the same backing array (same first cell, same
 		// capacity, at least b's length and within the capacity) or an array allocated after the pre-state (old) of this clause
@@ -528,7 +596,9 @@ func (e *Env) call(x *ECall) SVal {
 			base = e.cur
 		}
 		same := And(Eq(r.T, b.T), Eq(e.capOf(r), e.capOf(b)), Le(b.Len, r.Len), Le(r.Len, e.capOf(b)))
-		return bv(Or(same, Ge(r.T, base.cnt)))
+		// a new array lies between the allocation counter of the pre-state and the current one (so that a later
+		// allocation cannot overlap it)
+		return bv(Or(same, And(Ge(r.T, base.cnt), Le(Add(r.T, e.capOf(r)), e.cur.cnt))))
 	case "has":
 		need(2)
 		return bv(Ne(app(SBV, "bvand", e.cond(args[0]), e.cond(args[1])), BVLit(0)))
